@@ -286,6 +286,47 @@ func init() {
 			return rc
 		}})
 
+	// ---------------- C03: requests reach exactly the designated ready endpoints
+	register(&Profile{Name: "routing", Prop: "C03", Weight: 1,
+		Oracles: OracleSet{Property: "C03", Routing: true},
+		Build: func(seed uint64, tier string) *RunConfig {
+			r := cfgRng(seed)
+			mn, mx := tierOps(tier, 6, 22)
+			ctl := sampleCtl(r)
+			if _, avoid := avoidFlags(); avoid["dedicated_default_service"] && ctl.DefaultService != "" {
+				ctl.DefaultService = "a/dflt"
+			}
+			rc := &RunConfig{Property: "C03", Profile: "routing", Seed: seed, Ctl: ctl, MapOrder: r.IntN(2) == 0, Lagfree: r.IntN(3) == 0, MidSched: r.IntN(2) == 0}
+			w := map[string]int{}
+			for k, v := range defaultWeights {
+				w[k] = v
+			}
+			w["class_change"] = 0
+			rc.World, rc.Ops = GenerateRun(seed, GenOptions{Sparse: r.IntN(3) == 0, IngressKeys: []string{"path-type", "balance-algorithm", "maxconn-server", "timeout-server"},
+				ValueOverrides: map[string][]string{"path-type": {"begin", "prefix", "exact"}},
+				GlobalKeys: []string{"ssl-redirect", "drain-support", "timeout-client", "max-connections", "path-type-order"},
+				Hosts:      []string{"app.local", "api.local", "web.local", ""}, MinOps: mn, MaxOps: mx, QuiesceEvery: pickInt(r, 2, 4), KeysPerRun: 3, W: w, NoForeignClass: true})
+			return rc
+		}})
+
+	// static variant: no history, so duplicated declarations (creation-time conflict
+	// resolution) can be generated without reaching the recorded owner-change finding
+	register(&Profile{Name: "routing-static", Prop: "C03", Weight: 1,
+		Oracles: OracleSet{Property: "C03", Routing: true},
+		Build: func(seed uint64, tier string) *RunConfig {
+			r := cfgRng(seed)
+			ctl := sampleCtl(r)
+			if _, avoid := avoidFlags(); avoid["dedicated_default_service"] && ctl.DefaultService != "" {
+				ctl.DefaultService = "a/dflt"
+			}
+			rc := &RunConfig{Property: "C03", Profile: "routing-static", Seed: seed, Ctl: ctl, MapOrder: r.IntN(2) == 0, Lagfree: r.IntN(2) == 0}
+			rc.World, rc.Ops = GenerateRun(seed, GenOptions{IngressKeys: []string{"path-type", "balance-algorithm"}, ValueOverrides: map[string][]string{"path-type": {"begin", "prefix", "exact"}},
+				GlobalKeys: []string{"ssl-redirect", "drain-support", "path-type-order"}, Hosts: []string{"app.local", "api.local", ""},
+				Paths: []string{"/", "/app", "/app/", "/app/sub", "/App"}, NoOps: true, KeysPerRun: 2, NoForeignClass: true,
+				IgnoreAvoid: []string{"no_dup_paths"}, MaxIngresses: 5})
+			return rc
+		}})
+
 	// ---------------- C07: every generated configuration is loadable
 	register(&Profile{Name: "stress", Prop: "C07",
 		Oracles: OracleSet{Property: "C07", Loadable: true},
